@@ -171,7 +171,168 @@ class Extractor:
             if nop is None:
                 raise AnalysisError("validate: comparison unclassifiable: %s" % canon(test))
             return self._cmp_const(st, vb, nop(), self.const_of(a, st), pol, test)
+        r = self._opaque_pred(st, test, pol)
+        if r is not None:
+            return r
         raise AnalysisError("validate: comparison outside the vocabulary: %s" % canon(test))
+
+    # -- a pure predicate of ONE integer field, decided on critical points ------------------------------------
+    def _opaque_pred(self, st, test, pol):
+        """`test` mentions exactly one integer-valued field variable V (possibly through calls of pure repository
+        functions, e.g. `Modulation.pick_by_bl(len(self.burst)) is None`). If every callee uses its argument only
+        as an operand of comparisons, the predicate is piecewise constant between the integer constants the code can
+        compare with; it is folded on those critical points (c-1, c, c+1 for every integer constant of the modules
+        involved, and the ends of V's current domain) and the satisfying set is assembled from the results."""
+        occ = []
+
+        def find(e, parent_is_var=False):
+            v = self.var_of(e)
+            if v is not None:
+                occ.append((v, e))
+                return
+            for ch in ast.iter_child_nodes(e):
+                find(ch)
+        find(test)
+        names = {v for v, _ in occ}
+        if len(names) != 1:
+            return None
+        var = names.pop()
+        kind = "len" if var.startswith("len(") else self.fields[var]
+        if kind not in ("len", "int"):
+            return None
+        ids = {id(e) for _, e in occ}
+
+        outer = self
+
+        class Rep(ast.NodeTransformer):
+            def visit(self_, node):
+                if outer.var_of(node) == var:
+                    return ast.Name(id="__x", ctx=ast.Load())
+                return self_.generic_visit(node)
+        from pyfront import clone
+        t2 = Rep().visit(clone(test))
+        ast.fix_missing_locations(t2)
+        # callees: resolved, and their parameters flow only into comparisons / further such calls
+        consts = set()
+        mods = [self.ci.mod]
+        for m, _n in list(self.ci.mod.from_imports.values()):
+            if self.repo.has_mod(m):
+                mods.append(self.repo.mod(m))
+        for m in self.ci.mod.star_imports:
+            if self.repo.has_mod(m):
+                mods.append(self.repo.mod(m))
+        for m in mods:
+            for n in ast.walk(m.tree):
+                if isinstance(n, ast.Constant) and isinstance(n.value, int) and not isinstance(n.value, bool):
+                    consts.add(n.value)
+        # ... and every integer a module-level constant or class attribute (enum member tuples) folds to
+        def ints_of(v, out, depth=0):
+            if isinstance(v, bool):
+                return
+            if isinstance(v, int):
+                out.add(v)
+            elif isinstance(v, (tuple, list)) and depth < 3:
+                for x in v:
+                    ints_of(x, out, depth + 1)
+        for m in mods:
+            evm = Ev(self.repo, m)
+            exprs = list(m.consts.values())
+            for ci_ in m.classes.values():
+                exprs += list(ci_.attrs.values())
+            for ex in exprs:
+                try:
+                    ints_of(evm.ev(ex), consts)
+                except (Unknown, Raised, RecursionError):
+                    pass
+        for c in [n for n in ast.walk(t2) if isinstance(n, ast.Call)]:
+            tgt = self._resolve_pure(c)
+            if tgt is None:
+                raise AnalysisError("validate: call in a condition does not resolve: %s" % canon(c))
+            fd = tgt
+            ps = [a.arg for a in fd.args.args if a.arg not in ("self", "cls")]
+            for n in ast.walk(fd):
+                if isinstance(n, ast.Compare):
+                    for o_ in [n.left] + list(n.comparators):
+                        try:
+                            ints_of(Ev(self.repo, self.ci.mod).ev(o_), consts)
+                        except (Unknown, Raised, RecursionError):
+                            pass
+                if isinstance(n, ast.Name) and n.id in ps and isinstance(n.ctx, ast.Load):
+                    par = getattr(n, "_parent", None)
+                    if not isinstance(par, ast.Compare):
+                        raise AnalysisError("validate: %s() uses its argument outside comparisons: cannot fold `%s` on "
+                                            "critical points" % (fd.name, canon(test)))
+        base = var[4:-1] if var.startswith("len(") else var
+        if var.startswith("len("):
+            if st[base].none:
+                self.none_cmp.append((test, var))
+            d = st.get(var, Dom(IntSet([(0, INF)]), False))
+        else:
+            d = st[var]
+            if d.none or d.syms:
+                return None
+        env0 = {k[1:]: v for k, v in st.items() if isinstance(k, str) and k.startswith("$")}
+
+        def at(x):
+            env = dict(env0)
+            env["__x"] = x
+            try:
+                return bool(Ev(self.repo, self.ci.mod, env=env, self_cls=self.ci).ev(t2))
+            except (Unknown, Raised) as e:
+                raise AnalysisError("validate: condition does not fold at %s=%r: %s (%s)" % (var, x, canon(test), e))
+        sat = []
+        for lo, hi in d.ints.iv:
+            pts = sorted({p_ for c in consts for p_ in (c - 1, c, c + 1) if lo <= p_ <= hi} |
+                         ({lo} if lo != -INF else set()) | ({hi} if hi != INF else set()))
+            if not pts:
+                pts = [0 if lo == -INF and hi == INF else (lo if lo != -INF else hi)]
+            if len(pts) > 3000:
+                raise AnalysisError("validate: too many critical points for `%s`" % canon(test))
+            # segments: (-inf, pts[0]) , [p, p], (p, next p) ...
+            res = {p_: at(p_) for p_ in pts}
+            segs = []
+            if lo == -INF:
+                segs.append((-INF, pts[0] - 1, res[pts[0]]))     # beyond the smallest constant - 1 nothing changes
+            elif pts[0] > lo:
+                segs.append((lo, pts[0] - 1, res[pts[0]]))
+            for i, p_ in enumerate(pts):
+                segs.append((p_, p_, res[p_]))
+                nxt = pts[i + 1] if i + 1 < len(pts) else None
+                if nxt is not None and nxt > p_ + 1:
+                    # the gap contains no constant +-1: p_ is some c+1 and nxt some c'-1 of one constant-free stretch
+                    if res[p_] != res[nxt]:
+                        raise AnalysisError("validate: `%s` changes between %d and %d without a constant there" % (
+                            canon(test), p_, nxt))
+                    segs.append((p_ + 1, nxt - 1, res[p_]))
+            if hi == INF:
+                segs.append((pts[-1] + 1, INF, res[pts[-1]]))
+            elif pts[-1] < hi:
+                segs.append((pts[-1] + 1, hi, res[pts[-1]]))
+            sat += [(a, b) for a, b, r_ in segs if r_ == pol and a <= b]
+        nd = Dom(IntSet(sat), False, frozenset())
+        if var.startswith("len("):
+            return self._set(st, var, nd)
+        return self._set(st, var, nd)
+
+    def _resolve_pure(self, call):
+        """FunctionDef of a repository function / classmethod called in a condition, or None"""
+        f = call.func
+        if isinstance(f, ast.Name):
+            if f.id in ("len", "int", "abs", "bool"):
+                return ast.parse("def %s(): pass" % f.id).body[0]
+            r = self.repo.lookup(self.ci.mod, f.id)
+            if r is not None and r[0] == "func":
+                return r[1]
+            return None
+        if isinstance(f, ast.Attribute) and isinstance(f.value, ast.Name):
+            if f.value.id in ("self", "cls"):
+                c2, m2 = self.repo.find_method(self.ci, f.attr)
+                return m2
+            ci2 = self.repo.cls(self.ci.mod, f.value.id)
+            if ci2 is not None:
+                c2, m2 = self.repo.find_method(ci2, f.attr)
+                return m2
+        return None
 
     def _cmp_const(self, st, var, op, c, pol, node):
         base = var[4:-1] if var.startswith("len(") else var
@@ -311,6 +472,11 @@ class Extractor:
                 s2["$" + st.targets[0].id] = v
                 out.append(s2)
             return out
+        if isinstance(st, ast.Assign) and len(st.targets) == 1 and isinstance(st.targets[0], ast.Attribute) \
+                and isinstance(st.targets[0].value, ast.Name) and st.targets[0].value.id == "self" \
+                and st.targets[0].attr not in self.fields and isinstance(st.value, ast.Constant):
+            # bookkeeping attribute (not a validated field): no influence on what is accepted
+            return states
         if isinstance(st, ast.Expr) and isinstance(st.value, ast.Call) and \
                 canon(st.value.func).startswith(("log.", "logging.", "print")):
             return states
